@@ -13,12 +13,14 @@
  *   closefd:FD
  *   tree:SPEC     build a process tree, see below; the root continues with the next op
  *   envexit:NAME:A:B  _exit(A) if the environment variable NAME is set, else _exit(B)
+ *   badopen:N     call openat(AT_FDCWD, (char *)8, O_RDONLY) N times: a path pointer nobody can read (EFAULT)
  *   mkdirs:DIR:N  call mkdir(DIR/x<i>) N times (results ignored)
  *   fds:PATH      write the list of open descriptors (fd dev ino cloexec) to PATH
  *   fdsfd:FD      the same, written to descriptor FD (the list includes FD itself)
  * tree SPEC: node* ; node := flag* '(' node* ')'
  *   flags: i ignore signals, s setsid, g setpgid(0,0), d double fork (intermediate exits -> orphan),
  *          l linger 60 s (default: exit at once after creating its children), w wait for children,
+ *          u created with clone(CLONE_UNTRACED): a tracer of the parent is not attached to it
  *          z become a zombie's parent: spawn a child that exits at once and never reap it (with l)
  * every created process appends "node <pid>" to the file named by env CPROBE_REPORT if set.
  */
@@ -27,6 +29,8 @@
 #include <fcntl.h>
 #include <poll.h>
 #include <signal.h>
+#include <sched.h>
+#include <sys/syscall.h>
 #include <stdio.h>
 #include <stdlib.h>
 #include <string.h>
@@ -64,7 +68,7 @@ static const char *parse_nodes(const char *s, int depth);
 
 /* parse one node at s (flags then '('), create it, return pointer after its ')' */
 static const char *parse_node(const char *s, int depth) {
-  int fi = 0, fs = 0, fg = 0, fd_ = 0, fl = 0, fw = 0, fz = 0;
+  int fi = 0, fs = 0, fg = 0, fd_ = 0, fl = 0, fw = 0, fz = 0, fu = 0;
   for (; *s && *s != '('; s++) {
     switch (*s) {
       case 'i': fi = 1; break;
@@ -74,6 +78,7 @@ static const char *parse_node(const char *s, int depth) {
       case 'l': fl = 1; break;
       case 'w': fw = 1; break;
       case 'z': fz = 1; break;
+      case 'u': fu = 1; break;
     }
   }
   if (*s != '(') return s;
@@ -85,7 +90,7 @@ static const char *parse_node(const char *s, int depth) {
     if (*e == '(') lvl++;
     if (*e == ')') lvl--;
   }
-  pid_t p = fork();
+  pid_t p = fu ? (pid_t)syscall(SYS_clone, CLONE_UNTRACED | SIGCHLD, 0, 0, 0, 0) : fork();
   if (p == 0) {
     if (fd_) {
       pid_t q = fork();
@@ -206,6 +211,9 @@ int main(int argc, char **argv) {
         snprintf(path, sizeof path, "%s/x%ld", arg, k);
         mkdir(path, 0755);
       }
+    }
+    else if (IS("badopen")) {
+      for (long k = atol(arg); k > 0; k--) syscall(SYS_openat, AT_FDCWD, (char *)8, O_RDONLY);
     }
     else if (IS("fds")) dump_fds(arg);
     else if (IS("fdsfd")) dump_fds_to(atoi(arg), -1);
